@@ -35,6 +35,59 @@ GROUP = {
         ("text", "query_spec.rs"),
         ("text", "ledger_sum.rs"),
         ("text", "query_theorems.rs"),
+        # ---- the register: Ledger::postings lists exactly the postings of the selected account(s), in file order
+        ("text", "register_spec.rs"),
+        ("text", "register_listing.rs"),
+        U("AccountFilter(type)", QU, [r"enum AccountFilter<'ctx>"]),
+        U("AccountFilter::is_match", QU, [r"impl<'ctx> AccountFilter<'ctx>", r"fn is_match\b"], fn="is_match", wrap=("impl AccountFilter {", "}"), opaque=True, no_canary=True,
+          rewrites=[RET()],
+          contract="""
+        ensures r == (match *self { AccountFilter::Any => true, AccountFilter::Set(targets) => targets@.contains(*account) }),   // proved in group `register`
+"""),
+        U("AccountFilter::new", QU, [r"impl<'ctx> AccountFilter<'ctx>", r"fn new\b"], fn="new", wrap=("impl AccountFilter {", "}"), opaque=True, no_canary=True,
+          rewrites=[RET()],
+          contract="""
+        ensures
+            // (ASSUMED, L1: iterator chain over the intern store; its selection predicate `name == argument` is proved on a slice in group `register`)
+            filter is None ==> r == Some(AccountFilter::Any),
+            filter matches Some(f) ==> (match r {
+                Some(AccountFilter::Set(t)) => forall|x: Account| t@.contains(x) == #[trigger] by_name(ctx, f@)(x),
+                Some(AccountFilter::Any) => false,
+                None => forall|x: Account| !#[trigger] by_name(ctx, f@)(x) }),
+"""),
+        U("anchor:Ledger::transactions is transactions.iter()", QU, [r"impl<'ctx> Ledger<'ctx>", r"pub fn transactions\b"], no_canary=True,
+          slice=r"(self\.transactions\.iter\(\))", slice_count=1, slice_template="/* anchor: {EXPR} */\n"),
+        U("Ledger::postings", QU, [r"impl<'ctx> Ledger<'ctx>", r"pub fn postings<'a>"], fn="postings", wrap=("impl Ledger {", "}"),
+          rewrites=[RET(), ("R24-std-model", "query.account.as_deref()", "opt_string_as_deref(&query.account)", 1),
+                    ("splice-proof", "None => return Vec::new(),", "None => { proof { lemma_reg_seq_none(self.transactions@, self.transactions@.len() as int, sel); assert(refs_of(Seq::<&Posting>::empty()) =~= Seq::<Posting>::empty()); } return Vec::new() }", 1),
+                    ("R37-flat-map-filter-collect", "re:self\\.transactions\\(\\)\\s*\\.flat_map\\(\\|txn\\| &\\*txn\\.postings\\)\\s*\\.filter\\(\\|x\\| af\\.is_match\\(&x\\.account\\)\\)\\s*\\.collect\\(\\)",
+                     "{ let mut out__: Vec<&Posting> = Vec::new();\n        for ti__ in 0..self.transactions.len() { let txn = &self.transactions[ti__];\n            for pi__ in 0..txn.postings.len() { let x = &txn.postings[pi__]; if af.is_match(&x.account) { out__.push(x); } } }\n        out__ }", 1)],
+          contract="""
+        ensures
+            // C04: no account asked for = every posting, in file order
+            query.account is None ==> refs_of(r@) == reg_seq(self.transactions@, self.transactions@.len() as int, everything()),   // @Ledger.postings.without_argument_lists_everything
+            // C04: an account asked for = exactly the postings whose own account carries exactly that name, in file order (none known = nothing)
+            query.account matches Some(f) ==> refs_of(r@) == reg_seq(self.transactions@, self.transactions@.len() as int, by_name(ctx, f@)),   // @Ledger.postings.lists_the_postings_of_the_account_of_that_name
+""",
+          body_start="""        let ghost sel: spec_fn(Account) -> bool = if query.account is None { everything() } else { by_name(ctx, query.account->Some_0@) };""",
+          loops={0: """
+            invariant
+                refs_of(out__@) == reg_seq(self.transactions@, ti__ as int, sel),
+                forall|x: Account| #[trigger] sel(x) == (match af { AccountFilter::Any => true, AccountFilter::Set(targets) => targets@.contains(x) }),
+""", 1: """
+            invariant
+                ti__ < self.transactions@.len(), txn == &self.transactions@[ti__ as int],
+                refs_of(out__@) == reg_seq(self.transactions@, ti__ as int, sel) + sel_prefix(txn.postings@, pi__ as int, sel),
+                forall|x: Account| #[trigger] sel(x) == (match af { AccountFilter::Any => true, AccountFilter::Set(targets) => targets@.contains(x) }),
+"""},
+          loop_body_start={1: "                let ghost out_before__ = out__@;"},
+          loop_body_end={1: """                proof {
+                    if sel(txn.postings@[pi__ as int].account) {
+                        assert(refs_of(out__@) =~= refs_of(out_before__).push(txn.postings@[pi__ as int]));
+                        assert(refs_of(out__@) =~= reg_seq(self.transactions@, ti__ as int, sel) + sel_prefix(txn.postings@, pi__ as int, sel).push(txn.postings@[pi__ as int]));
+                    }
+                }"""}),
+
         # ---- Balance::round: every account's holdings rounded, no account added or dropped
         U("Balance::round", BA, [r"impl<'ctx> Balance<'ctx>", r"pub fn round\b"], fn="round", wrap=("impl Balance {", "}"),
           rewrites=[("R25e",)],
